@@ -5,7 +5,7 @@ import os, json, shutil, re, sys
 SRC = "/var/tmp/seedsrc"
 OUT = "/verif/seeded"
 conf = {}
-for f in ("/var/tmp/confirm_all.txt", "/var/tmp/confirm_all2.txt", "/var/tmp/confirm_all3.txt", "/var/tmp/confirm_all4.txt", "/var/tmp/confirm_all5.txt", "/var/tmp/confirm_all6.txt", "/var/tmp/confirm_all7.txt", "/var/tmp/confirm_all8.txt"):
+for f in ("/var/tmp/confirm_all.txt", "/var/tmp/confirm_all2.txt", "/var/tmp/confirm_all3.txt", "/var/tmp/confirm_all4.txt", "/var/tmp/confirm_all5.txt", "/var/tmp/confirm_all6.txt", "/var/tmp/confirm_all7.txt", "/var/tmp/confirm_all8.txt", "/var/tmp/confirm_all9.txt"):
     if os.path.exists(f):
         for line in open(f):
             m = re.match(r"(\S+) suite_with_change_rc=(\d+) failed_targets=(\d+) demo_with_change_rc=(\d+) demo_without_change_rc=(\d+)", line)
@@ -87,6 +87,14 @@ T = {  # id: (property, needs to manifest, demo features, caught by)
  "C06x": ("C06", "kill() while a backlog is queued: control branch guarded by `!receiver.is_empty()` - the backlog is drained first", "-", "deductive: lifecycle.select.inv.control_branch_unconditional; witness reproduces"),
  "C08x": ("C08", "on_run returned Ok(false); a burst of tells then a drained mailbox: `idle_enabled = true` on resume forgets it", "-", "deductive: lifecycle.select.inv.idle_flag_tracks_ok_false; witness reproduces"),
  "C11x": ("C11", "two threads spawn concurrently: thread-local id blocks computed as block+1 instead of block*64+1 overlap", "-", "undecided deductively (thread_local!, new statics) -> bounded stand-in: scenario identity_and_liveness (16 threads)"),
+ # ---- round 9: one-token edits
+ "C04z": ("C04", "on_run returns Err: the cleanup call is on_stop(&actor_weak, true) - killed=true without a kill", "-", "deductive: lifecycle.post.no_violation_recorded.C04 (monitor reason W_KILLED_FLAG); witness reproduces"),
+ "C07z": ("C07", "stop() on a full mailbox: try_send for send().await - Ok is returned, nothing is queued, the actor never stops", "-", "deductive: stop.relation (a waiting send, never TryFull)"),
+ "C09z": ("C09", "mpsc::channel(mailbox_capacity + 1): one more message than the bound is accepted", "-", "deductive: spawn.mailbox_bound_is_exactly_requested_capacity; witness reproduces"),
+ "C12z": ("C12", "graph.insert moved above the cycle check: the panicking asker leaves its edge behind; a bystander later gets a false deadlock panic", "deadlock-detection", "deductive: ask.deadlock_panic.leaves_graph_as_found"),
+ "C14z": ("C14", "WaitForGuard(callee.id) for caller.id: finishing an ask erases the callee's own in-flight edge, a later genuine cycle is missed", "deadlock-detection", "deductive: ask.relation (blamed on C14/C15 only: the relation still holds with the wait-for alphabet erased); witness reproduces"),
+ "C16z": ("C16", "AskHandler::blocking_ask forwards None for its timeout", "-", "deductive: erased.blocking_ask.some_keeps_its_timeout"),
+ "C17z": ("C17", "tell_blocking (deprecated, must ignore its timeout) forwards it", "-", "deductive: tell_blocking.alias_ignores_timeout; witness blocking_timeout reproduces"),
 }
 os.makedirs(OUT, exist_ok=True)
 for sid, (prop, needs, feats, caught) in sorted(T.items()):
